@@ -47,9 +47,9 @@ Goal True. idtac "@@OBL c01_route". Abort.
 
 (* the property with the regenerated names: a valid password-only session
    (auth_type = AuthTypePassword) under a list without proto.AuthTypePassword gets 401 *)
-Theorem c01_password_only : forall expand st now lim q t,
+Theorem c01_password_only : forall expand st now lim q w,
   s_sealed st = false -> ~ In (bytes_of_string protoAuthTypePassword) (s_cfg st) ->
-  q_tls q = None -> q_cred q = Cookie t -> valid_session now t -> t_level t = AuthTypePassword ->
+  q_tls q = None -> q_cookie q = Some w -> valid_session (issuer_of st) now w -> w_level w = AuthTypePassword ->
   q_origin q = NoOrigin \/ q_origin q = SameOrigin \/ q_method q = HGet ->
   certgen expand st now lim q = Refused 401.
 Proof. exact c01_password_session_401. Qed.
